@@ -51,6 +51,13 @@ SUBS = [
     (r"\.is_empty\(\)", ".len() == 1"),
     (r"\b0\b", "1"), (r"\b1\b", "0"), (r"\b8\b", "7"), (r"\b16\b", "15"),
     (r"\.skip\(1\)", ".skip(0)"), (r"\[\.\.\*size\]", "[..]"), (r"\.\.=", ".."),
+    # second run
+    (r" \+ ", " - "), (r" - ", " + "), (r"\bcontinue;", "break;"), (r"\bbreak;", "continue;"), (r"\breturn;", "/* no return */"),
+    (r"if !", "if "), (r"\(!", "("), (r"\.min\(", ".max("), (r"\.max\(", ".min("),
+    (r"\.filter\(\|[^|]*\| [^()]*(\([^()]*\)[^()]*)*\)", ""), (r"\.sorted_by_key\(\|[^|]*\| [^()]*(\([^()]*\)[^()]*)*\)", ""),
+    (r"\.sorted\(\)", ""), (r"\.rev\(\)", ""), (r"\.clone\(\)", ""), (r"\b2\b", "3"), (r"\b14\b", "13"), (r"\b256\b", "255"),
+    (r"Label::Alpha", "Label::Greek"), (r"\.0\b", ".1"), (r"\.1\b", ".0"), (r"&&", "&& !"), (r"\.push\(", ".insert(0, "),
+    (r"\*size\b", "HEX_SIZE"), (r"\bleft\b", "right"), (r"\bv1\b", "v2"), (r"\bv2\b", "v1"),
 ]
 
 
